@@ -113,7 +113,26 @@ var C06 = mk("C06",
 		"monitor: an independent reference decides which rollbacks are legal (the most recent change of every target of that change) - the others must end FAILED and merge nothing - and restores the displaced state for the legal ones; stored configuration and, once applied, the device are compared with it. Non-trivial = at least one write and one rollback; distinct = distinct script.",
 	rb, 150, 5000, monitorC06)
 
+var queueP = Profile{Targets: 2, Sets: 5, Faults: true, Verdicts: true, DevErrors: true, Rollbacks: true, Serializable: true, Deletes: true}
+
+// C09Q: the faithful work queue (real watchers + real Requeue results), monitor only.
+var C09Q = &fw.Prop{
+	ID: "C09Q",
+	Rule: "histories of 1-5 Sets/rollbacks (multi-target, serializable, rejected by the plugin, refused by the device) on 1-2 targets with relations appearing/disappearing and device restarts, in which the controllers are handed exactly the ids the REAL store watchers of the four controllers emit, the ids Reconcile returns in Result.Requeue and the ids of failed invocations - nothing else - FIFO within a work-queue partition (all transactions; proposals per target; configuration; mastership), the next partition chosen at random or round robin; the last phase has every target connected; " +
+		"monitor: every phase ends with the queue empty and at the end every transaction is APPLIED or FAILED (with its abort complete). Implementation only (the twin is not driven here). Non-trivial = at least one request; distinct = distinct script.",
+	Quick: 120, Thorough: 3000, Workers: 8, Subprocess: true, GenInWorker: false,
+	Gen:      func(r *rng.R, tier string) fw.Case { return GenerateQ(r, queueP) },
+	NewReal:  func() fw.Real { return newReal() },
+	Monitor:  monitorC09Q,
+	RealOnly: func(line string) bool { return true },
+	Protected: func(line string) bool {
+		return strings.HasPrefix(line, "v2.reset") || strings.HasPrefix(line, "v2.watch") || strings.HasPrefix(line, "v2.target")
+	},
+	Sigs: map[string]func(fw.Case, []string, string) bool{"firstUnapplied": firstUnappliedSig, "serializableWait": serializableWaitSig, "applyFailedSibling": applyFailedSiblingSig},
+}
+
 func init() {
+	fw.Register(C09Q)
 	fw.Register(C03)
 	fw.Register(C06)
 	fw.Register(C01)
